@@ -24,7 +24,7 @@ CHARS = [
     ('a', 'a', 0x61), (' ', ' ', 0x20), (',', ',', 0x2C), (';', ';', 0x3B), ('\\n', '\\n', 0x0A), ('\\x41', '\\x41', 0x41),
     ('\\\\', '\\\\', 0x5C), ('\\"', "\\'", None), ("'", '"', None), ('\\xe9', '\\xe9', 0xE9),       # an escape for a value above 0x7F is one byte too
 ]
-TERMINATORS = [None, 3, 0xFF]
+TERMINATORS = [None, 0, 3, 0xFF]        # an explicit terminator of 0 as well as the default
 
 
 def meta(tier):
